@@ -125,9 +125,12 @@ fn validation_modes() -> SimResult {
             // fully signed (the normal Strict message)
             _ => {
                 m.from = Some(peer.to_bytes());
-                m.seqno = Some(match choose(12) {
+                m.seqno = Some(match choose(14) {
                     0 => vec![],
                     1 => vec![1, 2, 3],
+                    // longer than a u64: signed over as it is, so only the length rule can refuse it
+                    2 => vec![9, 8, 7, 6, 5, 4, 3, 2, 1],
+                    3 => (0..12 + choose(8) as u8).collect(),
                     _ => (choose(1 << 30) as u64).to_be_bytes().to_vec(),
                 });
                 if choose(12) == 0 {
